@@ -358,10 +358,10 @@ def errtable_dir():
     d = ensure(os.path.join(WORK, 'gen', 'errtable-' + hashlib.sha256(text.encode()).hexdigest()[:16]))
     f = os.path.join(d, 'ScpiErrTable.tla')
     if not os.path.exists(f):
-        tmp = f + '.%d' % os.getpid()
+        tmp = f + '.%d.%d' % (os.getpid(), threading.get_ident())    # threads of one check generate it concurrently
         with open(tmp, 'w') as fo:
             fo.write(text)
-        os.rename(tmp, f)
+        os.replace(tmp, f)
     return d
 
 def tla_library():
